@@ -66,13 +66,15 @@ def contraction_side(net, ref, kind, fails):
         fails.append((kind + ":contraction-of-the-result-raises:" + type(e).__name__, "contracts", repr(e)[:200]))
 
 
-def exec_sequence(desc, ops):
+def exec_sequence(desc, ops, build=None):
     """Run the implementation on an operation sequence.  Returns (records, fails, final):
     records: per op  dict(op=..., obs=None | (stn snapshot term data...)),
-    fails:   [(sig, expected, observed)] found by the independent oracles."""
+    fails:   [(sig, expected, observed)] found by the independent oracles.
+    `build`: how a description becomes a network (default tn.build: every constructor argument a fresh object)."""
     from qib.tensor_network.tensor_network import to_full_tensor
     fails = []
-    net = tn.build(desc)
+    build = build or tn.build
+    net = build(desc)
     refs = tn.Refs()
     for t in net.net.tensors.values():
         refs.code(t.dataref)
@@ -112,7 +114,7 @@ def exec_sequence(desc, ops):
                 term = "OTrans %s" % tn.zl(raw)
                 net.transpose(None if axes is None else list(axes))
             elif kind in ("merge", "merge_self"):
-                other = net if kind == "merge_self" else tn.build(op[1])
+                other = net if kind == "merge_self" else build(op[1])
                 for t in other.net.tensors.values():
                     refs.code(t.dataref)
                 joins = [tuple(j) for j in op[2]]
@@ -285,13 +287,27 @@ def safe_consistent(stn):
         return False
 
 
-def gen_ops(rng, desc, thorough):
+def gen_ops(rng, desc, thorough, prefix=None, maxlen=12):
     """random operation sequence for the network `desc` (simulated on a scratch copy to keep
-    the operations meaningful)"""
+    the operations meaningful); `prefix`: operations to start with"""
     scratch = tn.build(desc)
     ops = []
-    L = rng.randint(1, 12)
+    L = rng.randint(1, maxlen)
     nmerge = 0
+    for op in (prefix or []):
+        ops.append(op)
+        try:
+            if op[0] == "rename_tensor":
+                scratch.net.rename_tensor(op[1], op[2])
+            elif op[0] == "rename_bond":
+                scratch.net.rename_bond(op[1], op[2])
+            elif op[0] == "transpose":
+                scratch.transpose(None if op[1] is None else list(op[1]))
+            elif op[0] == "merge":
+                scratch.merge(tn.build(op[1]), [tuple(j) for j in op[2]])
+                nmerge += 1
+        except ValueError:
+            pass
     for _ in range(L):
         stn = scratch.net
         r = rng.random()
@@ -454,6 +470,160 @@ def gen_ops(rng, desc, thorough):
     return ops
 
 
+# ----------------------------------------------------------------------------- who owns the constructor arguments
+OWNER_MODES = ["shared", "mutate-after"]
+OWNER_KINDS = ["list", "tuple", "array"]
+
+
+class CallerArgs:
+    """Builds networks the way a caller does who KEEPS the objects he passes to the constructors
+    (SymbolicTensor(tid, shape, bids, ref), SymbolicBond(bid, tids)):
+      mode 'shared':        equal sequences are ONE object (kind list / tuple / numpy array), re-used for every tensor
+                            and bond of every network built by this caller - the logical tensor and the virtual tensor
+                            of a wrap, the virtual tensors of both operands of a merge, bonds with equal tensor lists;
+      mode 'mutate-after':  every argument a fresh object that the caller overwrites after the constructor calls.
+    The networks must be exactly the described ones and behave like networks built from fresh arguments."""
+    def __init__(self, mode, kind):
+        assert mode in OWNER_MODES and kind in OWNER_KINDS
+        self.mode, self.kind = mode, kind
+        self.pool = {}
+        self.fails = []
+
+    def make(self, values):
+        values = [int(v) for v in values]
+        if self.kind == "tuple":
+            return tuple(values)
+        if self.kind == "array":
+            return np.array(values, dtype=int)
+        return list(values)
+
+    def seq(self, values):
+        if self.mode == "shared":
+            key = tuple(values)
+            if key not in self.pool:
+                self.pool[key] = self.make(values)
+            return self.pool[key]
+        return self.make(values)
+
+    @staticmethod
+    def scramble(c):
+        if isinstance(c, list):
+            c.reverse()
+            c.append(97)
+            c[0:1] = [-55, 41]
+        elif isinstance(c, np.ndarray) and c.size:
+            c[...] = c[::-1] * 3 + 50
+
+    def build(self, desc):
+        from qib.tensor_network import SymbolicTensor, SymbolicBond, SymbolicTensorNetwork, TensorNetwork
+        stn = SymbolicTensorNetwork()
+        mine = []
+        for tid, shape, bids, ref in desc["tensors"]:
+            s, b = self.seq(shape), self.seq(bids)
+            mine += [s, b]
+            stn.add_tensor(SymbolicTensor(tid, s, b, ref))
+        if desc.get("bonds") is None:
+            stn.generate_bonds()
+        else:
+            for bid, tids in desc["bonds"]:
+                t = self.seq(tids)
+                mine.append(t)
+                stn.add_bond(SymbolicBond(bid, t))
+        if self.mode == "mutate-after":
+            for c in mine:
+                self.scramble(c)
+        want = tn.snapshot(tn.build_symbolic(desc))
+        want_t = [(t[0], t[0], tuple(t[1]), tuple(t[2]), t[3]) for t in desc["tensors"]]
+        got = tn.snapshot(stn)
+        if got[0] != want_t or got != want:
+            self.fails.append(("constructor:network-is-not-the-described-one-when-the-caller-%s"
+                               % ("re-uses-his-argument-objects" if self.mode == "shared" else "overwrites-his-arguments-afterwards"),
+                               "the described network", "differs"))
+        return TensorNetwork(stn, {k: tn.arr(v) for k, v in desc["data"].items()})
+
+
+def run_owned(desc, ops, owner):
+    """exec_sequence with every network (the first operand and every merge operand) built by ONE CallerArgs"""
+    b = CallerArgs(owner["mode"], owner["kind"])
+    rec, fails, net = exec_sequence(copy.deepcopy(desc), copy.deepcopy(ops), build=b.build)
+    # the caller's pooled objects must still hold what he put in
+    for key, c in b.pool.items():
+        if tuple(int(x) for x in c) != key:
+            fails.append(("surgery:modifies-an-argument-object-of-the-caller", list(key), [int(x) for x in c]))
+            break
+    return rec, b.fails + fails, net
+
+
+def gen_owned(rng):
+    """(family, desc, prefix ops): networks in which several tensors are described by EQUAL sequences (so a caller may
+    pass one object), and merges whose operands are described by equal sequences"""
+    fam = rng.choice(["wrap", "wrap", "two-equal", "two-equal-closed", "random", "random"])
+    if fam == "random":
+        desc, _ = tn.gen_net(rng, nt_max=4, open_max=3, cap=1500)
+        pre = []
+        if rng.random() < 0.6:
+            pre.append(["merge", copy.deepcopy(desc), []])
+        return fam, desc, pre
+    nd = rng.randint(1, 3)
+    shape = [rng.choice([1, 2, 2, 3]) for _ in range(nd)]
+    bids = list(range(nd)) if rng.random() < 0.4 else rng.sample(range(-8, 20), nd)
+    tids = rng.sample([x for x in range(-6, 12) if x != -1], 2)
+    tl = [[tids[0], list(shape), list(bids), "p"]]
+    data = {"p": tn.rand_data(rng, shape, rng.random() < 0.2)}
+    if fam.startswith("two-equal"):
+        tl.append([tids[1], list(shape), list(bids), "q"])
+        data["q"] = tn.rand_data(rng, shape)
+    if fam == "two-equal-closed":
+        k = rng.randint(0, nd - 1)
+        vt = [-1, shape[:k], bids[:k], None]
+    else:
+        vt = [-1, list(shape), list(bids), None]
+    tl.insert(rng.randint(0, len(tl)), vt)
+    desc = {"tensors": tl, "bonds": None, "data": data}
+    if rng.random() < 0.4:
+        desc["bonds"] = [[b, [t[0] for t in tl if b in t[2]]] for b in bids]
+    # operands of the merges: a wrap described by the same sequences; the network itself once more
+    wrap = {"tensors": [[0, list(shape), list(bids), "w"], [-1, list(shape), list(bids), None]], "bonds": None,
+            "data": {"w": tn.rand_data(rng, shape)}}
+    nv = len(vt[1])
+    pre = []
+    if rng.random() < 0.5 and bids:
+        b = rng.choice(bids)
+        pre.append(["rename_bond", b, max(bids) + rng.randint(1, 3)])
+    cands = []
+    if nv:
+        a = rng.randrange(nv)
+        cands.append(["merge", wrap, [[a, a]] if rng.random() < 0.7 else []])
+        cands.append(["merge", copy.deepcopy(desc), [[a, a]] if rng.random() < 0.7 else []])
+    else:
+        cands.append(["merge", wrap, []])
+        cands.append(["merge", copy.deepcopy(desc), []])
+    rng.shuffle(cands)
+    pre += cands[:rng.randint(1, 2)]
+    if rng.random() < 0.3 and nv >= 2:
+        pm = list(range(nv))
+        rng.shuffle(pm)
+        pre.insert(rng.randint(0, len(pre)), ["transpose", pm])
+    return fam, desc, pre
+
+
+_W = {"tensors": [[0, [2, 3], [0, 1], "a"], [-1, [2, 3], [0, 1], None]], "bonds": None,
+      "data": {"a": {"shape": [2, 3], "re": [1, 2, 3, 4, 5, 6], "im": None}}}
+_WB = {"tensors": [[0, [3, 2], [0, 1], "b"], [-1, [3, 2], [0, 1], None]], "bonds": None,
+       "data": {"b": {"shape": [3, 2], "re": [1, 0, 2, -1, 1, 3], "im": None}}}
+_WX = {"tensors": [[1, [2, 3], [0, 1], "x"], [-1, [2, 3], [0, 1], None]], "bonds": None,
+       "data": {"x": {"shape": [2, 3], "re": [2, 1, 0, -1, 1, 1], "im": None}}}
+DIRECTED_OWNED = [
+    # (name, net, ops): equal sequences in one network / in both operands, then surgery
+    ("wrap-by-hand-rename-merge-transpose-merge", _W,
+     [["rename_bond", 1, 7], ["merge", _WB, [[1, 0]]], ["transpose", [1, 0]],
+      ["merge", {"tensors": [[0, [2, 2, 2], [0, 1, 2], "c"], [-1, [2, 2, 2], [0, 1, 2], None]], "bonds": None,
+                 "data": {"c": {"shape": [2, 2, 2], "re": [1, 2, 0, 1, -1, 1, 2, 0], "im": None}}}, [[0, 0], [1, 2]]]]),
+    ("two-networks-with-equal-open-bond-lists", _W, [["merge", _WX, [[0, 0]]], ["rename_tensor", 0, 5], ["merge", _WX, []]]),
+    ("merge-with-an-equal-network-then-renames", _W, [["merge", _W, []], ["rename_bond", 0, 9], ["rename_tensor", 0, 4], ["transpose", None]]),
+]
+
+
 DIRECTED = [
     # (name, net, ops): joins that reuse an axis while another open axis shares the bond  (defect #8)
     ("reused-join-axis-shared-open-bond",
@@ -531,9 +701,12 @@ def case_term(rec, net, fails):
         steps.append(ct.pair("(%s)" % s["term"], o))
     final = "None"
     if not rec.get("stopped") and not rec.get("clash") and len(steps) == len([x for x in rec["steps"] if not x.get("skip")]):
-        p, o = tn.ref_size(net.net)
-        if p * max(o, 1) <= CAP:
-            final = "(Some %s)" % tn.dense_term(tn.ref_dense(net.net, net.data))
+        try:
+            p, o = tn.ref_size(net.net)
+            if p * max(o, 1) <= CAP:
+                final = "(Some %s)" % tn.dense_term(tn.ref_dense(net.net, net.data))
+        except Exception:
+            final = "None"          # a network the implementation has left broken (reported by the oracles)
     return "CSeq %s %s %s %s %s" % (rec["net0"], ct.b(rec["consistent0"]), ct.lst(steps),
                                     tn.data_term(net.data, rec["refs"]), final)
 
@@ -564,22 +737,40 @@ def run(ctx):
                      "reusing axes / out-of-range joins; ~10% edge inputs: rename of the virtual tensor, partial / repeating / negative / "
                      "out-of-range axes, joins of unequal dimension, merge with itself). Every operation is classified valid/invalid from the "
                      "state before the call (numpy.transpose is the reference for axes): valid ones must be accepted, invalid ones refused "
-                     "with the state unchanged. non-trivial = sequence with >=1 accepted operation on a network with >=1 bond")
+                     "with the state unchanged. Ownership of constructor arguments: wraps built by hand / two tensors with equal bond lists / "
+                     "random networks, merged with an equally described wrap and with an equal copy of themselves, then random surgery, built by a caller who "
+                     "(shared) passes ONE list / tuple / numpy array object for all equal shape, bond-id and tensor-id sequences of all tensors, bonds and "
+                     "operands, or (mutate-after) overwrites his lists / arrays after the constructor calls; all oracles as above + the caller's objects unchanged. "
+                     "non-trivial = sequence with >=1 accepted operation on a network with >=1 bond")
     ctx.lib(["TN/TNCheck", "TN/TNSem", "TN/TNMergeValue", "TN/TNConsistentConv", "TN/TNGenBase"])
     ctx.translate("GenTN", tn.generate)
     ctx.props()
     rng = ctx.rng
     cases = []
     nseq = 500 if ctx.thorough else 90
-    seqs = [(name, d, o) for name, d, o in DIRECTED]
+    seqs = [(name, d, o, None) for name, d, o in DIRECTED]
     for i in range(nseq):
         desc, feats = tn.gen_net(rng, nt_max=5, open_max=4, cap=3000)
-        seqs.append(("random", desc, None))
-    for name, desc, ops in seqs:
+        seqs.append(("random", desc, None, None))
+    # who owns the constructor arguments: the same histories with re-used / overwritten argument objects
+    owners = [{"mode": m, "kind": k} for m in OWNER_MODES for k in OWNER_KINDS if (m, k) != ("mutate-after", "tuple")]
+    for name, d, o in DIRECTED_OWNED:
+        for ow in owners:
+            seqs.append(("owned:" + name, d, o, ow))
+    for i in range(150 if ctx.thorough else 45):
+        fam, desc, pre = gen_owned(rng)
+        seqs.append(("owned:" + fam, desc, gen_ops(rng, desc, ctx.thorough, prefix=pre, maxlen=5), owners[i % len(owners)]))
+    for name, desc, ops, owner in seqs:
         if ops is None:
             ops = gen_ops(rng, desc, ctx.thorough)
         inp = {"net": desc, "ops": ops}
-        rec, fails, net = exec_sequence(copy.deepcopy(desc), copy.deepcopy(ops))
+        if owner is None:
+            rec, fails, net = exec_sequence(copy.deepcopy(desc), copy.deepcopy(ops))
+        else:
+            inp["owner"] = owner
+            rec, fails, net = run_owned(desc, ops, owner)
+            ctx.count("owned_%s_%s" % (owner["mode"], owner["kind"]))
+            ctx.count("owned_family_" + name.split(":")[1])
         for sig, exp, obs in fails:
             ctx.fail(sig, tn.to_jsonable(inp), exp, obs)
         for s in rec["steps"]:
@@ -604,14 +795,20 @@ def run(ctx):
     for i, d in dis[:5]:
         ctx.log("model/impl disagree on", str(d)[:600])
         # turn a disagreement into a failing input when the oracles see it
-        rec, fails, net = exec_sequence(copy.deepcopy(d["net"]), copy.deepcopy(d["ops"]))
+        if d.get("owner"):
+            rec, fails, net = run_owned(d["net"], d["ops"], d["owner"])
+        else:
+            rec, fails, net = exec_sequence(copy.deepcopy(d["net"]), copy.deepcopy(d["ops"]))
         for sig, exp, obs in fails:
             ctx.fail(sig, d, exp, obs)
 
 
 def replay(ctx, data):
     inp = data["input"]
-    rec, fails, net = exec_sequence(copy.deepcopy(inp["net"]), copy.deepcopy(inp["ops"]))
+    if inp.get("owner"):
+        rec, fails, net = run_owned(inp["net"], inp["ops"], inp["owner"])
+    else:
+        rec, fails, net = exec_sequence(copy.deepcopy(inp["net"]), copy.deepcopy(inp["ops"]))
     for sig, exp, obs in fails:
         if sig == data["sig"]:
             ctx.fail(sig, inp, exp, obs)
